@@ -113,6 +113,9 @@ func (st *Stats) note(e *Entry, p *Plan, out *RunOut) {
 	if out.Sched.Outcome != "finished" && out.Sched.Polling > 0 {
 		st.Probes["runs-ending-with-tasks-polling-channels-(not-judged)"]++
 	}
+	if out.Sched.Outcome == "stalled" {
+		st.Probes["runs-stalled-in-an-operation-the-simulation-does-not-know-(not-judged)"]++
+	}
 	if out.Sched.Contended > 0 {
 		st.Probes["runs-with-contended-decisions"]++
 	}
@@ -377,6 +380,14 @@ func judgeC20(e *Entry, p *Plan, out *RunOut) *Violation {
 		return mkViolation("C20", "data-race:"+raceSig(out.RaceText), "the race detector reported under this schedule:\n"+firstReport(out.RaceText), e, p, out)
 	}
 	// (d) bounded progress
+	if out.Sched.Outcome == "stalled" {
+		// a task blocked in the Go runtime, in an operation the simulation does not know: not simulated, not judged
+		return nil
+	}
+	if out.Sched.Outcome == "stalled" {
+		// a task blocked in the Go runtime, in an operation the simulation does not know: not simulated, not judged
+		return nil
+	}
 	if out.Sched.Outcome != "finished" && out.Sched.Polling > 0 {
 		// tasks were still polling channels when the run ended: a select case that only a hand-over between
 		// two simulated tasks could serve is not matched by the simulation (sched/run.go) - not judged
